@@ -357,6 +357,8 @@ def derivVerdict (o : Obj) (impl : List String) (var : String) (order : Nat) : S
         | none => "-"
         | some (d1, d2) =>
           let want := ratToFloat (if order == 1 then d1 else d2)
+          -- double range: the recursions square the first derivative
+          if !(Float.abs (ratToFloat d1) < 1e140) then "-" else
           if Float.abs (x - want) ≤ 1e-7 * (if Float.abs want > 1.0 then Float.abs want else 1.0) then "ok"
           else if order == 1 then "FAIL:derivative1" else "FAIL:derivative2"
   | _ => "FAIL:parse"
